@@ -135,6 +135,49 @@ func c18AddUnhashed(encSig []byte) ([]byte, error) {
 	return append(enc, '\n'), nil
 }
 
+// c18Core is the decoded signature with the unhashed subpacket area of the OpenPGP v4 signature packet emptied and the
+// packet length re-encoded: the part of the signature that verification reads. Anything that does not have the
+// expected framing is its own core.
+func c18Core(decoded string) string {
+	raw := []byte(decoded)
+	if len(raw) < 12 || raw[0] != 0x1 || raw[1] != 0xC2 {
+		return decoded
+	}
+	var hdr, blen int
+	switch {
+	case raw[2] < 192:
+		hdr, blen = 3, int(raw[2])
+	case raw[2] < 224:
+		hdr, blen = 4, (int(raw[2])-192)<<8+int(raw[3])+192
+	default:
+		return decoded
+	}
+	body := raw[hdr:]
+	if len(body) != blen || body[0] != 4 {
+		return decoded
+	}
+	hashedLen := int(body[4])<<8 | int(body[5])
+	u := 6 + hashedLen
+	if u+2 > len(body) {
+		return decoded
+	}
+	unhashedLen := int(body[u])<<8 | int(body[u+1])
+	if u+2+unhashedLen > len(body) {
+		return decoded
+	}
+	nb := append([]byte{}, body[:u]...)
+	nb = append(nb, 0, 0)
+	nb = append(nb, body[u+2+unhashedLen:]...)
+	out := []byte{0x1, 0xC2}
+	if len(nb) < 192 {
+		out = append(out, byte(len(nb)))
+	} else {
+		l := len(nb) - 192
+		out = append(out, byte(l>>8)+192, byte(l))
+	}
+	return string(append(out, nb...))
+}
+
 func c18Mutate(encoded []byte, other []byte, m c18Mut) []byte {
 	sep := bytes.LastIndex(encoded, []byte("\n\n"))
 	content, sig := encoded[:sep], encoded[sep+2:]
@@ -266,7 +309,7 @@ func c18Exec(in c18In) vh.Out {
 	}
 
 	accepted, added := false, false
-	coqA := "(mkA false [] [] None [] [] [])"
+	coqA := "(mkA false [] [] None [] [] [] [])"
 	if derr == nil {
 		accepted = db.Check(a) == nil
 		if db.Add(a) == nil {
@@ -293,7 +336,8 @@ func c18Exec(in c18In) vh.Out {
 			hs = append(hs, "("+vh.CoqBytes(k)+", "+vh.CoqBytes(a.Headers()[k].(string))+")")
 		}
 		coqA = "(mkA " + vh.CoqBool(a.SupportedFormat()) + " " + vh.CoqBytes(a.AuthorityID()) + " " + vh.CoqBytes(a.SignKeyID()) + " " + ts + " " +
-			vh.CoqList(hs) + " " + vh.CoqBytes(string(content)) + " " + vh.CoqBytes(c18Decoded(bytes.TrimSpace(encSig))) + ")"
+			vh.CoqList(hs) + " " + vh.CoqBytes(string(content)) + " " + vh.CoqBytes(c18Decoded(bytes.TrimSpace(encSig))) + " " +
+			vh.CoqBytes(c18Core(c18Decoded(bytes.TrimSpace(encSig)))) + ")"
 	}
 
 	kid := c18Key.PublicKey().ID()
@@ -311,7 +355,7 @@ func c18Exec(in c18In) vh.Out {
 		clock = "(CEarliest " + vh.CoqZ(in.Clock) + ")"
 	}
 	coq := "(CCheck " + vh.CoqList(trustedKeys) + " " + vh.CoqList(storedKeys) + " " + clock + " " + vh.CoqBool(derr == nil) + " " + coqA + " (" +
-		vh.CoqBytes(kid) + ", " + vh.CoqBytes(string(content0)) + ", " + vh.CoqBytes(sig0) + ") " + vh.CoqBool(accepted) + " " + vh.CoqBool(added) + ")"
+		vh.CoqBytes(kid) + ", " + vh.CoqBytes(string(content0)) + ", " + vh.CoqBytes(c18Core(sig0)) + ") " + vh.CoqBytes(sig0) + " " + vh.CoqBool(accepted) + " " + vh.CoqBool(added) + ")"
 
 	tags := []string{"key:" + in.KeyWhere, "mut:" + in.Mut.Kind, "clock:" + in.ClockMode, "type:" + in.Type}
 	if in.KeyAccount != c18Authority {
